@@ -183,6 +183,16 @@ pub(crate) fn observe(idm: &Idm, with_next_cid: bool) -> String {
         };
         out.push(format!("reader_sees:{seen}"));
         out.push(format!("display_name_txn:{}", r.qs_read.get_domain_display_name()));
+        // replication metadata and the other backend-wide values, as a backup would record them
+        match crate::bkp::backup_bytes(&mut r.qs_read, kanidm_proto::backup::BackupCompression::NoCompression).ok().and_then(|b| serde_json::from_slice::<serde_json::Value>(&b).ok()) {
+            Some(v) => {
+                let mut ruv: Vec<String> = v.pointer("/repl_meta/V1/ruv").and_then(|x| x.as_array()).map(|a| a.iter().map(|x| x.to_string()).collect()).unwrap_or_default();
+                ruv.sort();
+                out.push(format!("replication_metadata:{}:{}", ruv.len(), kv_engine::hash_str(&ruv.join(","))));
+                out.push(format!("max_change_time:{}", v.get("db_ts_max").map(|x| x.to_string()).unwrap_or_default()));
+            }
+            None => out.push("replication_metadata:unreadable".into()),
+        }
         out.push(format!("oauth2_client_configured:{}", r.oauth2_openid_discovery(CLIENT).is_ok()));
     });
     out.push(format!("display_name_cell:{}", idm.idms.domain_read().display_name()));
@@ -326,7 +336,8 @@ fn run_case(tpl: &Path, dir: &Path, k: usize, how: How, baseline_fresh: &str, co
             }
             // (re-opening runs the start-up migrations, which touch the change ids of built-in
             // entries, so the entry hash is compared through the other lines only)
-            let strip = |s: &str| s.lines().filter(|l| !l.starts_with("entries:") && !l.starts_with("E:")).collect::<Vec<_>>().join("\n");
+            // (... and adds its own change ids to the replication metadata)
+            let strip = |s: &str| s.lines().filter(|l| !l.starts_with("entries:") && !l.starts_with("E:") && !l.starts_with("replication_metadata:") && !l.starts_with("max_change_time:")).collect::<Vec<_>>().join("\n");
             if strip(&fresh) != strip(&after_cmp) {
                 return format!("viol:committed_state_differs_on_disk|after a successful commit the running server and a fresh one on the same files disagree: {}", first_diff(&strip(&after_cmp), &strip(&fresh)));
             }
